@@ -20,6 +20,7 @@ type Env struct {
 	nobj0    *Term
 	pkgOverride *types.Package
 	inOld    bool
+	bound    map[string]Val // let / forall / macro parameters
 }
 
 func (env *Env) pkg() *types.Package {
@@ -31,11 +32,11 @@ func (env *Env) pkg() *types.Package {
 
 func (env *Env) with(name string, v Val) *Env {
 	e := *env
-	e.names = make(map[string]Val, len(env.names)+1)
-	for k, x := range env.names {
-		e.names[k] = x
+	e.bound = make(map[string]Val, len(env.bound)+1)
+	for k, x := range env.bound {
+		e.bound[k] = x
 	}
-	e.names[name] = v
+	e.bound[name] = v
 	return &e
 }
 
@@ -63,9 +64,7 @@ func (fc *FnCtx) evalSpec(env *Env, e *Expr) Val {
 		return fc.specIdent(env, e.Name)
 	case "old":
 		o := *env
-		o.names = env.oldNames
 		o.heap = env.oldHeap
-		o.cellsAt = nil
 		o.inOld = true
 		return fc.evalSpec(&o, e.Args[0])
 	case "un":
@@ -132,6 +131,25 @@ func (fc *FnCtx) evalSpec(env *Env, e *Expr) Val {
 }
 
 func (fc *FnCtx) specIdent(env *Env, name string) Val {
+	if v, ok := env.bound[name]; ok {
+		return v
+	}
+	if env.inOld {
+		if v, ok := env.oldNames[name]; ok {
+			return v
+		}
+	} else if env.cellsAt == nil {
+		if v, ok := env.names[name]; ok {
+			return v
+		}
+	}
+	if env.cellsAt != nil {
+		if c := fc.cellNamed(env.cellsAt, name, env.pos); c != nil {
+			if v, ok := env.cellsAt.cells[c]; ok {
+				return v
+			}
+		}
+	}
 	if v, ok := env.names[name]; ok {
 		return v
 	}
@@ -144,13 +162,6 @@ func (fc *FnCtx) specIdent(env *Env, name string) Val {
 		return Val{K: VPtr, T: mkI(0)}
 	case "B":
 		return mathInt(mkInt(specB))
-	}
-	if env.cellsAt != nil {
-		if c := fc.cellNamed(env.cellsAt, name, env.pos); c != nil {
-			if v, ok := env.cellsAt.cells[c]; ok {
-				return v
-			}
-		}
 	}
 	// package-level constant
 	if v, t, ok := fc.eng.lookupConst(env.pkg(), name); ok {
@@ -223,7 +234,9 @@ func (fc *FnCtx) cellNamed(s *State, name string, pos token.Pos) *Cell {
 func (fc *FnCtx) specSel(env *Env, e *Expr) Val {
 	// package-qualified constant
 	if id := e.Args[0]; id.Kind == "ident" {
-		if _, bound := env.names[id.Name]; !bound {
+		_, b1 := env.names[id.Name]
+		_, b2 := env.bound[id.Name]
+		if !b1 && !b2 {
 			for _, imp := range env.pkg().Imports() {
 				if imp.Name() == id.Name {
 					if v, t, ok := fc.eng.lookupConst(imp, e.Name); ok {
@@ -333,12 +346,12 @@ func (fc *FnCtx) specCall(env *Env, e *Expr) Val {
 			panic(unsupported("macro arity: " + e.String()))
 		}
 		me := *env
-		me.names = make(map[string]Val, len(env.names)+len(m.Params))
-		for k, v := range env.names {
-			me.names[k] = v
+		me.bound = make(map[string]Val, len(env.bound)+len(m.Params))
+		for k, v := range env.bound {
+			me.bound[k] = v
 		}
 		for i, p := range m.Params {
-			me.names[p] = fc.evalSpec(env, e.Args[i])
+			me.bound[p] = fc.evalSpec(env, e.Args[i])
 		}
 		// macro bodies see only their parameters (plus constants), not local cells
 		return fc.evalSpec(&me, m.Body)
@@ -478,9 +491,8 @@ func (fc *FnCtx) wordsEqual(ha map[string]*Term, a Val, hb map[string]*Term, b V
 func (fc *FnCtx) specUnchanged(env *Env, e *Expr) *Term {
 	cur := fc.evalSpec(env, e)
 	o := *env
-	o.names = env.oldNames
 	o.heap = env.oldHeap
-	o.cellsAt = nil
+	o.inOld = true
 	old := fc.evalSpec(&o, e)
 	return fc.valUnchanged(env, cur, old, e.String())
 }
@@ -546,7 +558,11 @@ func (fc *FnCtx) applyHint(s *State, env *Env, h *Hint, where string) {
 			if v.K != VSlice {
 				panic(unsupported("lemma array argument must be a slice: " + e.Args[i].String()))
 			}
-			lenv.names[p] = Val{K: VOpaque, T: mkSelect(fc.heapIn(env.heap, "Mem", SMem), v.Arr)}
+			hp := env.heap
+			if e.Args[i].Kind == "old" || env.inOld {
+				hp = env.oldHeap
+			}
+			lenv.names[p] = Val{K: VOpaque, T: mkSelect(fc.heapIn(hp, "Mem", SMem), v.Arr)}
 			lenv.names[p+"_off"] = mathInt(v.Off)
 		} else {
 			lenv.names[p] = v
